@@ -369,6 +369,13 @@ func (s *Server) newSocket(
 		socket.close(ReasonTransportError, err)
 		return nil
 	}
+
+	// The server might have been closed after this handshake passed the check in ServeHTTP
+	// (`Close` takes its snapshot of the store once). Don't leave a socket behind.
+	if s.IsClosed() {
+		socket.Close()
+		return nil
+	}
 	return socket
 }
 
